@@ -63,7 +63,7 @@ pub struct Aggregate {
     pub steps: u64,
     pub context_switches: u64,
     pub preemptions: u64,
-    pub sim_time_ns: u128,
+    pub sim_time_s: f64,
     pub history_events: u64,
     pub per_stratum: BTreeMap<String, u64>,
     pub per_mode: BTreeMap<String, u64>,
@@ -79,6 +79,8 @@ pub struct Aggregate {
     pub next_index: u64,
     pub finished: bool,
     pub determinism_digest: u64,
+    /// per run index: "<history hash>:<schedule hash>" (only with --digests)
+    pub run_digests: BTreeMap<String, String>,
 }
 
 const HASH_CAP: usize = 400_000;
@@ -184,6 +186,8 @@ struct Shared {
     found: Option<(Violation, String)>,
     replay_mode: Option<ReplayFile>,
     replay_result: Option<(Vec<Violation>, u64, Option<String>)>,
+    digests: bool,
+    rerecord: Option<(Scenario, SchedRecord)>,
 }
 
 thread_local! {
@@ -300,6 +304,7 @@ fn finish_run(sh: &mut Shared) {
     if let Some(rf) = &sh.replay_mode {
         let _ = rf;
         sh.replay_result = Some((verdict.violations.clone(), hh, rec.diverged.clone()));
+        sh.rerecord = Some((sc.clone(), rec.clone()));
         sh.stop = true;
         return;
     }
@@ -326,7 +331,10 @@ fn finish_run(sh: &mut Shared) {
             _ => None,
         })
         .sum();
-    a.sim_time_ns += hx_adv;
+    a.sim_time_s += hx_adv as f64 / 1e9;
+    if sh.digests {
+        a.run_digests.insert(cur.index.to_string(), format!("{:016x}:{:016x}", hh, schedule_hash(&rec)));
+    }
     for (k, n) in &out.probes {
         if k.starts_with("fault.") {
             *a.faults.entry(k[6..].to_string()).or_insert(0) += n;
@@ -541,6 +549,7 @@ fn cmd_run(args: &[String]) -> i32 {
     let known_path = arg(args, "--known").unwrap_or("/verif/known_findings.json").to_string();
     let replays_dir = arg(args, "--replays").unwrap_or("/verif/replays").to_string();
     let tree = arg(args, "--tree").unwrap_or("unknown").to_string();
+    let digests = args.iter().any(|a| a == "--digests");
     let only_stratum = arg(args, "--stratum").map(|s| s.to_string());
     let mut strata = props::plan(&property);
     if let Some(name) = only_stratum {
@@ -568,7 +577,7 @@ fn cmd_run(args: &[String]) -> i32 {
     };
     SHARED.with(|s| {
         *s.borrow_mut() =
-            Some(Shared { work, agg, cur: None, stop: false, found: None, replay_mode: None, replay_result: None })
+            Some(Shared { work, agg, cur: None, stop: false, found: None, replay_mode: None, replay_result: None, digests, rerecord: None })
     });
     install_panic_hook();
     let runner = shuttle::Runner::new(SimScheduler { driver: WorkDriver }, shuttle_config(200_000));
@@ -671,6 +680,8 @@ fn cmd_replay(args: &[String]) -> i32 {
             found: None,
             replay_mode: Some(rf),
             replay_result: None,
+            digests: false,
+            rerecord: None,
         })
     });
     install_panic_hook();
@@ -708,11 +719,88 @@ fn cmd_replay(args: &[String]) -> i32 {
     0
 }
 
+/// Run the scenario of a replay file leniently and write the file back with the choice list,
+/// history hash and violation details of *this* run, marked strict (used after minimisation).
+fn cmd_rerecord(args: &[String]) -> i32 {
+    let path = args.get(0).expect("replay file").clone();
+    let text = std::fs::read_to_string(&path).expect("read replay file");
+    let mut rf: ReplayFile = serde_json::from_str(&text).expect("parse replay file");
+    let expected = rf.signature.clone();
+    let lenient_args = vec![path.clone(), "--lenient".to_string(), "--rerecord".to_string()];
+    let _ = lenient_args;
+    rf.scenario.sched.strict = false;
+    let property = rf.property.clone();
+    let work = Work {
+        property: property.clone(),
+        verif_seed: rf.verif_seed,
+        runs: 0,
+        offset: 0,
+        stride: 1,
+        next: 0,
+        strata: vec![],
+        total_share: 1,
+        known: vec![],
+        replays_dir: "/tmp".to_string(),
+        tree: String::new(),
+    };
+    let keep = rf.clone();
+    SHARED.with(|s| {
+        *s.borrow_mut() = Some(Shared {
+            work,
+            agg: Aggregate::default(),
+            cur: None,
+            stop: false,
+            found: None,
+            replay_mode: Some(rf),
+            replay_result: None,
+            digests: false,
+            rerecord: None,
+        })
+    });
+    install_panic_hook();
+    let runner = shuttle::Runner::new(SimScheduler { driver: WorkDriver }, shuttle_config(200_000));
+    let result = panic::catch_unwind(panic::AssertUnwindSafe(|| runner.run(exec::body)));
+    let (violations, hh, sc, rec): (Vec<Violation>, u64, Scenario, SchedRecord) = match result {
+        Ok(_) => SHARED.with(|s| {
+            let mut g = s.borrow_mut();
+            let sh = g.as_mut().unwrap();
+            let (v, hh, _) = sh.replay_result.take().unwrap_or((vec![], 0, None));
+            let (sc, rec) = sh.rerecord.take().expect("rerecord state");
+            (v, hh, sc, rec)
+        }),
+        Err(e) => {
+            let payload = payload_string(&e);
+            let out_run = exec::take_output();
+            let rec = sched::peek_record();
+            let v = failure_violation(&property, &payload);
+            (vec![v], history_hash(&out_run), keep.scenario.clone(), rec)
+        }
+    };
+    let v = match violations.iter().find(|v| v.signature == expected) {
+        Some(v) => v.clone(),
+        None => {
+            println!("RERECORD result=lost");
+            return 1;
+        }
+    };
+    let mut out = keep;
+    out.scenario = sc;
+    out.scenario.sched.choices = Some(rec.choices.clone());
+    out.scenario.sched.strict = true;
+    out.history_hash = format!("{:016x}", hh);
+    out.message = v.message.clone();
+    out.event = v.event;
+    std::fs::write(&path, serde_json::to_string_pretty(&out).unwrap()).expect("write");
+    println!("RERECORD result=ok steps={}", rec.choices.len());
+    0
+}
+
 fn main() {
     let args: Vec<String> = std::env::args().collect();
     let code = match args.get(1).map(|s| s.as_str()) {
         Some("run") => cmd_run(&args[2..]),
         Some("replay") => cmd_replay(&args[2..]),
+        Some("rerecord") => cmd_rerecord(&args[2..]),
         _ => {
             eprintln!("usage: simcheck run|replay ...");
             2
